@@ -215,6 +215,9 @@ func (gen *Generator) GenerateDef(args []Sexp, opname string) error {
 		dup = false
 		Q("def sees assign to pair, using AssignInstr{}")
 		instr = AssignInstr{}
+		// the target form is evaluated before the assignment is made:
+		// it is not in tail position.
+		gen.Tail = false
 		err := gen.Generate(args[0])
 		if err != nil {
 			return err
